@@ -1,6 +1,7 @@
 package props
 
 import (
+	"strings"
 	"fmt"
 	"go/token"
 	"go/types"
@@ -51,8 +52,9 @@ func checkC04(c *core.Ctx, r *core.Report) {
 	r.Explanation = "C04 (aggregations equal the mathematical aggregate), tables and gates only: " +
 		"(1) TAGUNION — sutils.NumTypeEnclosure is a tagged union (Ntype, IntgrVal, FloatVal): in every function that tests the tag of a union value, each read of a member of that same value lies where the tag is known to select that member (FloatVal under Ntype == float, IntgrVal where Ntype is known not to be float): a running sum/min/max is never taken from the member that does not hold it; " +
 		"(2) DEPENDS — the pre-computed segment statistics (SST) fast path is gated on match-all ∧ segment fully enclosed ∧ no eval/values()/list()/non-ingest statistic (shared with C03); " +
-		"(3) TABLE — the statistics file writer (writeSstToBuf) and reader agree on the version byte they write/accept."
-	r.NotCovered = "any numeric result, bucket boundaries, group-key uniqueness, sparse/mixed-type group-by behaviour, sketch error, the bookkeeping of per-measure result slots"
+		"(3) TABLE — the statistics file writer (writeSstToBuf) and reader agree on the version byte they write/accept; " +
+		"(4) SCRATCH — the scratch map that PopulateFieldToValueFromMeasureResults fills for an eval aggregate holds exactly the measure's fields at every success return (an abstract interpretation over the facts keys ⊆ fields and fields ⊆ keys): its callers reuse the map across measures and records and take the number of result slots from len(map)."
+	r.NotCovered = "any numeric result, bucket boundaries, group-key uniqueness, sparse/mixed-type group-by behaviour, sketch error, the bookkeeping of per-measure result slots beyond the scratch-map clause"
 
 	nte := c.NamedType(pkgSutils, "NumTypeEnclosure")
 	st := nte.Underlying().(*types.Struct)
@@ -244,4 +246,280 @@ func checkC04(c *core.Ctx, r *core.Report) {
 		}
 		r.Check(uses && readerUses, "TABLE", "segstats-version-byte(writer=reader)", c.Pos(w.Pos()), "writer emits and reader accepts VERSION_SEGSTATS_BUF_V4", "the statistics writer and reader no longer agree on the version byte")
 	}
+
+	// (4) the reused scratch map of an eval aggregate holds exactly the measure's fields
+	checkScratchMapKeys(c, r)
+}
+
+// checkScratchMapKeys: abstract interpretation of PopulateFieldToValueFromMeasureResults over the two facts
+// SUB (keys(map) ⊆ fields) and SUP (fields ⊆ keys(map)).  The callers (AddEvalResultsFor*) take the number of
+// running-stat slots an eval aggregate occupies from len(map), and the map is reused across measures and
+// records, so both facts must hold at every success return.
+func checkScratchMapKeys(c *core.Ctx, r *core.Report) {
+	fn := c.Fn("pkg/segment/results/blockresults", "PopulateFieldToValueFromMeasureResults")
+	name := "blockresults.PopulateFieldToValueFromMeasureResults"
+	if len(fn.Params) < 2 {
+		r.Undecided("SCRATCH", name, c.Pos(fn.Pos()), "unexpected signature")
+		return
+	}
+	mp, fields := fn.Params[0], fn.Params[1]
+	// the map: the parameter, a fresh map made for it, and phis of those
+	isMap := map[ssa.Value]bool{mp: true}
+	for changed := true; changed; {
+		changed = false
+		for _, b := range fn.Blocks {
+			for _, in := range b.Instrs {
+				phi, ok := in.(*ssa.Phi)
+				if !ok || isMap[phi] {
+					continue
+				}
+				all := true
+				for _, e := range phi.Edges {
+					if _, mk := e.(*ssa.MakeMap); !mk && !isMap[e] {
+						all = false
+					}
+				}
+				if all {
+					isMap[phi] = true
+					changed = true
+				}
+			}
+		}
+	}
+	isFieldsLen := func(v ssa.Value) bool {
+		call, ok := v.(*ssa.Call)
+		if !ok {
+			return false
+		}
+		bi, ok := call.Call.Value.(*ssa.Builtin)
+		return ok && bi.Name() == "len" && call.Call.Args[0] == ssa.Value(fields)
+	}
+	isMapLen := func(v ssa.Value) bool {
+		call, ok := v.(*ssa.Call)
+		if !ok {
+			return false
+		}
+		bi, ok := call.Call.Value.(*ssa.Builtin)
+		return ok && bi.Name() == "len" && isMap[call.Call.Args[0]]
+	}
+	isFieldElem := func(v ssa.Value) bool {
+		ld, ok := v.(*ssa.UnOp)
+		if !ok {
+			return false
+		}
+		ia, ok := ld.X.(*ssa.IndexAddr)
+		return ok && ia.X == ssa.Value(fields)
+	}
+	loops := core.Loops(fn)
+	// fill loops: index loops bounded by len(fields) whose every complete iteration stores map[fields[i]]
+	fillExit := map[[2]*ssa.BasicBlock]bool{}
+	pruneExit := map[[2]*ssa.BasicBlock]bool{}
+	for _, l := range loops {
+		ifi, ok := core.LastIf(l.Header)
+		if !ok {
+			continue
+		}
+		if bo, ok := ifi.Cond.(*ssa.BinOp); ok && bo.Op == token.LSS && isFieldsLen(bo.Y) {
+			// a MapUpdate(map, fields[i]) that dominates every latch
+			var upd *ssa.MapUpdate
+			for b := range l.Body {
+				for _, in := range b.Instrs {
+					if mu, ok := in.(*ssa.MapUpdate); ok && isMap[mu.Map] && isFieldElem(mu.Key) {
+						upd = mu
+					}
+				}
+			}
+			if upd != nil {
+				okAll := true
+				for _, p := range l.Header.Preds {
+					if l.Body[p] && !upd.Block().Dominates(p) {
+						okAll = false
+					}
+				}
+				if okAll {
+					for _, s := range l.Header.Succs {
+						if !l.Body[s] {
+							fillExit[[2]*ssa.BasicBlock{l.Header, s}] = true
+						}
+					}
+				}
+			}
+		}
+		// prune loops: range over the map; a key not in fields is deleted
+		for _, in := range l.Header.Instrs {
+			nx, ok := in.(*ssa.Next)
+			if !ok {
+				continue
+			}
+			rg, ok := nx.Iter.(*ssa.Range)
+			if !ok || !isMap[rg.X] {
+				continue
+			}
+			prunes := false
+			for b := range l.Body {
+				bi, ok := core.LastIf(b)
+				if !ok {
+					continue
+				}
+				call, ok := bi.Cond.(*ssa.Call)
+				if !ok {
+					continue
+				}
+				f := core.CalleeFunc(call)
+				if f == nil || f.Name() != "SliceHas" || len(call.Call.Args) != 2 || call.Call.Args[0] != ssa.Value(fields) {
+					continue
+				}
+				key := call.Call.Args[1]
+				for _, x := range b.Succs[1].Instrs {
+					if dc, ok := x.(*ssa.Call); ok {
+						if dbi, ok := dc.Call.Value.(*ssa.Builtin); ok && dbi.Name() == "delete" && isMap[dc.Call.Args[0]] && dc.Call.Args[1] == key && len(b.Succs[1].Preds) == 1 {
+							prunes = true
+						}
+					}
+				}
+			}
+			if prunes {
+				for _, s := range l.Header.Succs {
+					if !l.Body[s] {
+						pruneExit[[2]*ssa.BasicBlock{l.Header, s}] = true
+					}
+				}
+			}
+		}
+	}
+	type st struct{ sub, sup, reached bool }
+	in := map[*ssa.BasicBlock]st{fn.Blocks[0]: {false, false, true}}
+	guardedDelete := func(dc *ssa.Call) bool {
+		// delete(map, k) on the false edge of SliceHas(fields, k)
+		b := dc.Block()
+		if len(b.Preds) != 1 {
+			return false
+		}
+		p := b.Preds[0]
+		ifi, ok := core.LastIf(p)
+		if !ok || p.Succs[1] != b {
+			return false
+		}
+		call, ok := ifi.Cond.(*ssa.Call)
+		if !ok {
+			return false
+		}
+		f := core.CalleeFunc(call)
+		return f != nil && f.Name() == "SliceHas" && len(call.Call.Args) == 2 && call.Call.Args[0] == ssa.Value(fields) && call.Call.Args[1] == dc.Call.Args[1]
+	}
+	transfer := func(b *ssa.BasicBlock, s st) st {
+		for _, x := range b.Instrs {
+			switch y := x.(type) {
+			case *ssa.MapUpdate:
+				if isMap[y.Map] && !isFieldElem(y.Key) {
+					s.sub = false
+				}
+			case *ssa.Call:
+				if bi, ok := y.Call.Value.(*ssa.Builtin); ok {
+					switch bi.Name() {
+					case "clear":
+						if isMap[y.Call.Args[0]] {
+							s.sub, s.sup = true, false
+						}
+					case "delete":
+						if isMap[y.Call.Args[0]] && !guardedDelete(y) {
+							s.sup = false
+						}
+					}
+				}
+			}
+		}
+		return s
+	}
+	for changed := true; changed; {
+		changed = false
+		for _, b := range fn.DomPreorder() {
+			if b == fn.Blocks[0] {
+				continue
+			}
+			acc := st{true, true, false}
+			for _, p := range b.Preds {
+				ps, ok := in[p]
+				if !ok || !ps.reached {
+					continue
+				}
+				out := transfer(p, ps)
+				// a phi that selects a fresh map on this edge: the fresh map is empty
+				for _, x := range b.Instrs {
+					phi, ok := x.(*ssa.Phi)
+					if !ok {
+						break
+					}
+					if isMap[phi] {
+						for i, e := range phi.Edges {
+							if b.Preds[i] == p {
+								if _, mk := e.(*ssa.MakeMap); mk {
+									out.sub, out.sup = true, false
+								}
+							}
+						}
+					}
+				}
+				e := [2]*ssa.BasicBlock{p, b}
+				if fillExit[e] {
+					out.sup = true
+				}
+				if pruneExit[e] {
+					out.sub = true
+				}
+				if ifi, ok := core.LastIf(p); ok && len(p.Succs) == 2 && p.Succs[0] != p.Succs[1] {
+					if bo, ok := ifi.Cond.(*ssa.BinOp); ok && (bo.Op == token.NEQ || bo.Op == token.EQL) {
+						if (isMapLen(bo.X) && isFieldsLen(bo.Y)) || (isMapLen(bo.Y) && isFieldsLen(bo.X)) {
+							equalEdge := p.Succs[1]
+							if bo.Op == token.EQL {
+								equalEdge = p.Succs[0]
+							}
+							if b == equalEdge {
+								// equal sizes and one inclusion give equality
+								if out.sup {
+									out.sub = true
+								} else if out.sub {
+									out.sup = true
+								}
+							}
+						}
+					}
+				}
+				acc.sub = acc.sub && out.sub
+				acc.sup = acc.sup && out.sup
+				acc.reached = true
+			}
+			if acc.reached && in[b] != acc {
+				in[b] = acc
+				changed = true
+			}
+		}
+	}
+	n := 0
+	for _, ret := range core.Returns(fn) {
+		if core.ReturnSuccess(ret) == core.No {
+			continue
+		}
+		n++
+		s := transfer(ret.Block(), in[ret.Block()])
+		construct := fmt.Sprintf("%s:success-return#%d-map-keys-equal-the-measure's-fields", name, n)
+		switch {
+		case !s.sup:
+			r.Violation("SCRATCH", construct, c.Pos(ret.Pos()), "the scratch map can be returned without every field of the measure in it")
+		case !s.sub:
+			r.Violation("SCRATCH", construct, c.Pos(ret.Pos()), "the scratch map can be returned with keys left over from the previous measure or record (it is reused by the callers): the AddEvalResultsFor* functions take the number of running-stat slots of an eval aggregate from len(map), so with a stale key the step is one too large and the aggregate that follows two adjacent eval aggregates is never fed")
+		default:
+			r.OK("SCRATCH", construct, c.Pos(ret.Pos()), "keys(map) = fields is established on every path (fill loop over fields; stale keys cleared or pruned)")
+		}
+	}
+	r.Floor("SCRATCH", "success returns of the scratch map filler", n, 1)
+	// the consumers really use len(map) as the slot count (the reason the clause matters)
+	nUse := 0
+	for _, f := range c.RepoFunctions() {
+		if core.FnPkgPath(f) != core.ModPath+"/pkg/segment/results/blockresults" || !strings.HasPrefix(f.Name(), "AddEvalResultsFor") {
+			continue
+		}
+		nUse++
+	}
+	r.Count("AddEvalResultsFor* consumers of len(map)", nUse)
 }
